@@ -612,6 +612,9 @@ M_PRE = "backend failed before it delivered a usable response head, but the clie
 M_BROKEN_H1 = ("backend response that is truncated / has malformed chunked framing / was cut off by a backend "
                "failure is presented to the HTTP/1.x client as a complete non-5xx response (failure after the "
                "backend head was parsed, before the client head was sent: computed Content-Length)")
+M_BROKEN_H1S = ("backend response that is truncated / has malformed chunked framing / was cut off by a backend "
+                "failure is completed towards the HTTP/1.x client although the response head had already been "
+                "sent (chunked message terminated with a last-chunk / Content-Length fulfilled)")
 M_BROKEN_H2 = ("backend response that is truncated / malformed / cut off by a backend failure ends the HTTP/2 "
                "stream with END_STREAM (complete) instead of RST_STREAM")
 M_RELAY = "complete well-formed backend response is not relayed faithfully: "
@@ -698,7 +701,10 @@ def oracle(line, out):
         return None
     if broken:
         if cend != "pend" and cv["complete"] is True and cv["status"] < 500 and not nobody:
-            return M_BROKEN_H2 if ver == 20 else M_BROKEN_H1
+            if ver == 20:
+                return M_BROKEN_H2
+            computed = cv.get("framing") == "cl" and not (ref["kind"] == "msg" and ref.get("framing") == "cl")
+            return M_BROKEN_H1 if computed else M_BROKEN_H1S
         return None
     if not good or ref["excess"]:
         return None                           # lenient territory: only the generic checks above
@@ -946,6 +952,27 @@ def gen_big(ctx):
     return lines
 
 
+def unexplained_disagreements(ctx, name, exe, lines):
+    """The runner attributes every model/implementation disagreement to the oracle hits of the same stream.
+    With open findings that would hide a drift the oracle does not see on the same inputs: report
+    disagreements on inputs the oracle has nothing to say about as a broken correspondence of their own."""
+    impl, rc, _ = C.parallel_lines([exe], lines)
+    mod, mrc, _ = C.parallel_lines([C.ltmodel_path(), "beresp"], lines)
+    if rc or mrc or len(impl) != len(lines) or len(mod) != len(lines):
+        return
+    un = [(l, a, b) for l, a, b in zip(lines, impl, mod) if a != b and not oracle(l, a)]
+    if not un:
+        return
+    un.sort(key=lambda d: len(d[0]))
+    l, a, b = un[0]
+    ctx.violation("corr-unexplained:%s" % name,
+                  "model/implementation correspondence %s broken on %d inputs the property oracle does not flag" % (name, len(un)),
+                  {"property": ctx.pid, "kind": "correspondence", "correspondence": name, "input": l, "impl_obs": a,
+                   "model_obs": b, "more": [list(d) for d in un[1:5]],
+                   "oracle_verdict": "no property-level failure on these inputs; the code no longer is the function "
+                                     "the theorems are about"}, found=False)
+
+
 def run(ctx):
     exe, err = C.build_harness("h_beresp")
     if exe is None:
@@ -957,9 +984,11 @@ def run(ctx):
     ctx.dist["relay:random"] = len(rl)
     ctx.dist["relay:exhaustive-splits-and-cuts"] = len(ex)
     ctx.dist["relay:large-bodies"] = len(big)
-    ctx.differential("relay(h_beresp)", [exe], "beresp", rl + ex + big, oracle, classify)
-    ctx.differential("backend-dechunk(h_beresp)", [exe], "beresp", gen_dechunk(ctx), oracle, classify)
-    ctx.differential("fastcgi-records(h_beresp)", [exe], "beresp", gen_fcgi(ctx), oracle, classify)
+    for name, lines in (("relay(h_beresp)", rl + ex + big), ("backend-dechunk(h_beresp)", gen_dechunk(ctx)),
+                        ("fastcgi-records(h_beresp)", gen_fcgi(ctx))):
+        nd = ctx.differential(name, [exe], "beresp", lines, oracle, classify)
+        if nd and ctx.model_ok:
+            unexplained_disagreements(ctx, name, exe, lines)
     ctx.exhaustive = ("every composition into segments of the head/body boundary, the first and the last "
                       "%d bytes of %d short proxy/CGI responses; every cut point x every end kind "
                       "(eof, reset, error, hangup, stall) x client protocol (1.0, 1.1, h2) x stream-response-body "
